@@ -637,7 +637,7 @@ func Run(r *mc.Run) {
 
 func Replay(scenario string, raw json.RawMessage) []*mc.Violation {
 	var in In
-	if json.Unmarshal(raw, &in) != nil || kindByName(in.Kind) == nil {
+	if mc.UnmarshalInput(raw, &in) != nil || kindByName(in.Kind) == nil {
 		return nil
 	}
 	return check(scenario, in)
